@@ -1,3 +1,4 @@
+#![allow(dead_code)]
 mod engine;
 mod instr;
 mod oracles;
